@@ -88,6 +88,9 @@ Header ==
                  prior |-> [i \in DOMAIN est |-> [pr |-> CHOOSE q \in Pick(PriorMenu) : TRUE, positive |-> Coin(3)]],
                  p |-> p, meas |-> meas, cols |-> cols, T |-> T, N |-> N, trajs |-> << >>,
                  icform |-> "list", pcform |-> "list", frameform |-> "list",
+                 \* one scenario in three has no parameter conditions at all (parameter_conditions = None) while the
+                 \* trajectories still start from their own initial conditions
+                 nocond |-> Coin(3),
                  timecol |-> IF Coin(2) THEN "t" ELSE "time",
                  \* declaration order of the species in the model (the measured species are found by NAME)
                  sporder |-> IF Exh THEN <<"X", "Y", "Z">>
@@ -97,7 +100,7 @@ Header ==
 
 AddTraj ==
     /\ pc = "traj" /\ Len(sc.trajs) < sc.N
-    /\ \E g \in Pick(GridMenu(sc.T)), x0 \in Pick(X0Menu), cd \in Pick(CondMenu) :
+    /\ \E g \in Pick(GridMenu(sc.T)), x0 \in Pick(X0Menu), cd \in (IF sc.nocond THEN {NoDict} ELSE Pick(CondMenu)) :
        \E fr \in (IF Lean THEN {CHOOSE x \in FrameExh : TRUE} ELSE IF Exh THEN FrameExh ELSE {[s \in sc.cols |-> [t \in 1..sc.T |-> RandomElement(DataVals)]]}) :
           sc' = [sc EXCEPT !.trajs = Append(@, [grid |-> g, x0 |-> x0, cond |-> cd, frame |-> fr])]
     /\ UNCHANGED <<cur, obj, st, pc, n, th, last, memo, plan, vi, ki, hist, objs>>
@@ -111,7 +114,7 @@ Plan ==
     /\ LET x0s == [i \in 1..sc.N |-> sc.trajs[i].x0]
            cds == [i \in 1..sc.N |-> sc.trajs[i].cond]
            s2 == [sc EXCEPT !.icform = IF AllSame(x0s) /\ Coin(2) THEN "dict" ELSE "list",
-                            !.pcform = IF (\A i \in 1..sc.N : DOMAIN cds[i] = {}) /\ Coin(2) THEN "none"
+                            !.pcform = IF (\A i \in 1..sc.N : DOMAIN cds[i] = {}) /\ (IF sc.nocond THEN TRUE ELSE Coin(2)) THEN "none"
                                        ELSE IF AllSame(cds) /\ Coin(2) THEN "dict" ELSE "list",
                             !.frameform = IF sc.N = 1 /\ Coin(2) THEN "single" ELSE "list"]
            L == Len(sc.est)
